@@ -39,6 +39,8 @@ EXPLANATION = (
     'string and effective metadata (global line overridden by the region\'s own, lexed by the reader\'s metadata lexer) must be '
     'recovered from the text; (R4 also checks that every warnings.warn in the io packages is called as (message, category)). Not decided: decimal formatting within half a unit of the precision; texts containing '
     'quote characters or leading braces; fixed-point of parse∘serialise∘parse as a whole.')
+EXPLANATION_ADDED = (" (R1 also) sky coordinates are transformed, on the frame object, to an instance of the frame written on the frame line (decided for a frame name that is given); regular polygons reach the per-region serialiser as polygons (decided on the object handed over). (R10) visual metadata: the reader's metadata pipeline (lexer, raw validation, split, translation, RegionMeta/RegionVisual construction), the writer's translation back and the reader's pipeline again are partially evaluated on eleven probe metadata strings; the second parse must give the first parse's meta and visual.")
+EXPLANATION += EXPLANATION_ADDED
 TRUSTED = ['str.format / f-string semantics', 'SkyCoord.to_string yields "lon lat"', 'Quantity.to_string(unit="deg")',
            're.split on whitespace/commas yields the written tokens in order']
 ASSUMPTIONS = ['the lexers are functions of their token only (their constants are C10.R3)']
